@@ -69,10 +69,22 @@ class DependencyMapper(CSECachingMapperMixin, Collector):
     def map_variable(self, expr, *args, **kwargs):
         return {expr}
 
+    def _rec_computed_head(self, expr, *args, **kwargs):
+        # With include_calls="descend_args", the name of the called function
+        # is not a dependency, but what a computed head such as f(x)(y) or
+        # fs[i](y) is made of is.
+        from pymbolic.primitives import Variable
+        if isinstance(expr.function, Variable):
+            return []
+        else:
+            return [self.rec(expr.function, *args, **kwargs)]
+
     def map_call(self, expr, *args, **kwargs):
         if self.include_calls == "descend_args":
             return self.combine(
-                    [self.rec(child, *args, **kwargs) for child in expr.parameters])
+                    self._rec_computed_head(expr, *args, **kwargs)
+                    + [self.rec(child, *args, **kwargs)
+                        for child in expr.parameters])
         elif self.include_calls:
             return {expr}
         else:
@@ -81,7 +93,8 @@ class DependencyMapper(CSECachingMapperMixin, Collector):
     def map_call_with_kwargs(self, expr, *args, **kwargs):
         if self.include_calls == "descend_args":
             return self.combine(
-                    [self.rec(child, *args, **kwargs) for child in expr.parameters]
+                    self._rec_computed_head(expr, *args, **kwargs)
+                    + [self.rec(child, *args, **kwargs) for child in expr.parameters]
                     + [self.rec(val, *args, **kwargs) for name, val in
                     expr.kw_parameters.items()]
                     )
